@@ -5,20 +5,29 @@
 cd "$(dirname "$0")" || exit 2
 export GOFLAGS=-mod=mod GOPROXY=off GOSUMDB=off GOTOOLCHAIN=local
 export VERIF_DIR="$PWD"
+# VERIF_REPO (optional, for background sweeps on a snapshot only): build against that copy
+# of fastgo instead of /repo. Registered checks never set it.
+MODFLAG=""
+if [ -n "$VERIF_REPO" ]; then
+  mkdir -p bin
+  sed "s#=> /repo#=> $VERIF_REPO#" sim/go.mod > bin/go.alt.mod
+  MODFLAG="-modfile=$PWD/bin/go.alt.mod"
+  echo "note: building against $VERIF_REPO (not /repo)"
+fi
 build() {
   mkdir -p bin
-  ( cd sim && go build -tags verif -o ../bin/fgsim ./cmd/fgsim ) || { echo "BUILD FAILED (fastgo or the simulator does not compile)" >&2; exit 2; }
+  ( cd sim && go build $MODFLAG -tags verif -o ../bin/fgsim ./cmd/fgsim ) || { echo "BUILD FAILED (fastgo or the simulator does not compile)" >&2; exit 2; }
 }
 case "$1" in
   build) build; exit 0;;
   replay) build; exec ./bin/fgsim replay "$2";;
   racebuild)
     mkdir -p bin
-    ( cd sim && go build -race -tags verif -o ../bin/fgsim-race ./cmd/fgsim ) || { echo "RACE BUILD FAILED" >&2; exit 2; }
+    ( cd sim && go build $MODFLAG -race -tags verif -o ../bin/fgsim-race ./cmd/fgsim ) || { echo "RACE BUILD FAILED" >&2; exit 2; }
     exit 0;;
   C17)
     build
-    ( cd sim && go build -race -tags verif -o ../bin/fgsim-race ./cmd/fgsim ) || { echo "RACE BUILD FAILED" >&2; exit 2; }
+    ( cd sim && go build $MODFLAG -race -tags verif -o ../bin/fgsim-race ./cmd/fgsim ) || { echo "RACE BUILD FAILED" >&2; exit 2; }
     exec ./bin/fgsim check C17 "${2:-quick}";;
   *) build; exec ./bin/fgsim check "$1" "${2:-quick}";;
 esac
